@@ -246,6 +246,17 @@ func (st *State) heapBound(name string) string {
 	return "now0"
 }
 
+// loadBound: a reference loaded from heap array `name` at base object `base` was allocated before the time the array
+// version was created - provided the base object itself existed then. An object allocated later (by this function or by a
+// callee, which may have initialised its fields without the array being versioned) can hold references as young as now.
+func (st *State) loadBound(name, base string) string {
+	hb := st.heapBound(name)
+	if hb == st.alive || base == "" {
+		return st.alive
+	}
+	return fmt.Sprintf("(ite (< (stamp %s) %s) %s %s)", base, hb, hb, st.alive)
+}
+
 func (st *State) markMod(name string) {
 	if st.dry != nil {
 		st.dry.mod.heaps[name] = true
